@@ -34,6 +34,9 @@ type cs struct {
 	// LeaderLate: the leader's Create is not ordered before the other parties: it happens on the leader's own
 	// thread, so that a party may call Join before the leader listens
 	LeaderLate bool `json:"leader_late,omitempty"`
+	// Delay: virtual seconds party i waits between Join/Create and Connect (a slow starter); virtual time advances
+	// only when no thread can run, so a delay interacts with deadlines and timers of the code under test only
+	Delay map[int]int `json:"delay,omitempty"`
 	// U: unbounded exploration with sleep sets (every Mazurkiewicz trace and every accept order)
 	U bool `json:"unbounded,omitempty"`
 }
@@ -153,6 +156,11 @@ func system(k cs, w *world) func() {
 						p.done = true
 						return
 					}
+				}
+				if d := k.Delay[i]; d > 0 {
+					fired := false
+					csched.AddTimer(int64(d)*1e9, func() { fired = true })
+					csched.SchedPoint("sleep", 0, func() bool { return fired })
 				}
 				if err := nw.Connect(); err != nil {
 					p.err = fmt.Errorf("Connect: %v", err)
@@ -328,6 +336,14 @@ func runCaseSharded(ctx *runner.Ctx, k cs, shard, nshards int) {
 	}
 }
 
+func ident(n int) []int {
+	r := make([]int, n)
+	for i := range r {
+		r[i] = i
+	}
+	return r
+}
+
 func perms(n int) [][]int {
 	var res [][]int
 	a := make([]int, n)
@@ -405,6 +421,17 @@ func work(ctx *runner.Ctx) {
 				if j != i {
 					cases = append(cases, cs{N: c.n, C: c.c, Order: id, P: c.p, E: c.e, F: c.f, Slow: []int{i}, Fast: []int{j}})
 				}
+			}
+		}
+	}
+	// slow starters: one party waits 1 s / 10 s / 1 h (virtual) between Join and Connect
+	for _, n := range []int{2, 3} {
+		for i := 0; i < n; i++ {
+			for _, d := range []int{1, 10, 3600} {
+				if ctx.Quick() && d == 1 {
+					continue
+				}
+				cases = append(cases, cs{N: n, C: 1, Order: ident(n), P: 0, E: 0, F: 1, Delay: map[int]int{i: d}})
 			}
 		}
 	}
